@@ -137,6 +137,9 @@ pub fn build(ctl: &'static Ctrl, params: &Value) -> Instance {
         }));
     }
     let mut cats = vec!["pk", "park", "psub", "unpark", "yield", "timer"];
+    if params["ao"].as_bool().unwrap_or(true) {
+        cats.push("ao"); // points before and after every AtomicOption operation
+    }
     if canceller {
         cats.push("cancel");
     }
